@@ -1,11 +1,13 @@
 #!/usr/bin/env python3
 """tools/mkmut.py name file 'old' 'new'  -> /verif/mutants/name.patch (repo left clean)"""
 import subprocess, sys
+import os
+ROOT = os.environ.get("MUT_ROOT", "/repo")  # use a scratch worktree while checks are running against /repo
 name, path, old, new = sys.argv[1:5]
-p = "/repo/" + path
+p = ROOT + "/" + path
 s = open(p).read()
 if s.count(old) != 1:
     sys.exit("pattern occurs %d times in %s" % (s.count(old), path))
 open(p, "w").write(s.replace(old, new))
-subprocess.run("git diff > /verif/mutants/%s.patch && git checkout -- ." % name, shell=True, cwd="/repo", check=True)
+subprocess.run("git diff > /verif/mutants/%s.patch && git checkout -- ." % name, shell=True, cwd=ROOT, check=True)
 print("ok", name)
